@@ -59,7 +59,7 @@ Put(f, k, v) == [x \in DOMAIN f \cup {k} |-> IF x = k THEN v ELSE f[x]]
 RowSet(rows) == { <<rows[i][1], [c \in Cols |-> rows[i][1 + ColIdx(c)]]>> : i \in DOMAIN rows }
 
 StmtOf(e) ==
-  [kind |-> e.kind, key |-> e.key, wt |-> e.wt,
+  [kind |-> e.kind, key |-> e.key, wt |-> e.wt, n |-> e.seq,
    cols |-> IF e.kind = "ins"
             THEN [c \in Cols |-> IF e.vals[c] = "NONE" THEN R!NullV ELSE e.vals[c]]
             ELSE [c \in {x \in Cols : e.vals[x] # "NONE"} |-> e.vals[c]]]
